@@ -43,6 +43,7 @@ type Engine struct {
 	axiomNames []string
 	fnVals     map[*ssa.Function]*ClosV
 	ifMeth     map[string]*types.Func
+	ghosts     []string
 }
 
 func (e *Engine) ifaceMethod(key string) *types.Func { return e.ifMeth[key] }
@@ -310,6 +311,21 @@ func (e *Engine) immutableGlobal(g *ssa.Global) (Val, bool) {
 		}
 	}
 	e.mu.Unlock()
+	if g.Pkg != nil && !strings.HasPrefix(g.Pkg.Pkg.Path(), modPrefix) {
+		if _, isS := e.sentinels[g]; !isS {
+			// package-level variables of library packages (base64.RawURLEncoding, ...) are never
+			// reassigned by this module: each is a fixed, unknown value
+			el := g.Type().Underlying().(*types.Pointer).Elem()
+			var ls []Term
+			for _, l := range leavesOf(el) {
+				n := "glib" + mangle(g.Pkg.Pkg.Path()+"."+g.Name()+l.Path)[1:]
+				reg.declare(n, fmt.Sprintf("(declare-const %s %s)", n, l.Sort))
+				ls = append(ls, Term{n, l.Sort})
+			}
+			v, _ := unflatten(el, ls)
+			return v, true
+		}
+	}
 	if n, ok := e.sentinels[g]; ok {
 		// distinct, non-nil, and different from every run-time allocated error (those have positive payloads)
 		return IfaceV{reg.typeTag(types.NewPointer(types.Universe.Lookup("error").Type())), IntLit(int64(-n))}, true
@@ -735,4 +751,32 @@ func (e *Engine) literalGlobal(st *State, g *ssa.Global) (Val, bool) {
 		return SliceV{r, IntLit(0), IntLit(int64(len(lits))), types.Typ[types.String]}, true
 	}
 	return nil, false
+}
+
+// ghostNames lists every declared ghost field.
+func (e *Engine) ghostNames() []string {
+	e.mu.Lock()
+	defer e.mu.Unlock()
+	if e.ghosts != nil {
+		return e.ghosts
+	}
+	seen := map[string]bool{}
+	for k := range e.db.Fns {
+		if strings.HasPrefix(k, "ghost:") {
+			seen[k[6:]] = true
+		}
+	}
+	for _, ts := range e.db.Types {
+		for g := range ts.Ghost {
+			seen[g] = true
+		}
+	}
+	for g := range seen {
+		e.ghosts = append(e.ghosts, g)
+	}
+	sort.Strings(e.ghosts)
+	if e.ghosts == nil {
+		e.ghosts = []string{}
+	}
+	return e.ghosts
 }
